@@ -969,11 +969,11 @@ func (s *Session) input(seg *segment) error {
 	protocol := seg.Protocol()
 	if s.isClient {
 		if protocol != openSessionResponse && protocol != dataServerToClient && protocol != dataServerToClientLowEntropy && protocol != ackServerToClient && protocol != closeSessionRequest && protocol != closeSessionResponse {
-			return stderror.ErrInvalidArgument
+			return s.onUnexpectedProtocol(seg)
 		}
 	} else {
 		if protocol != openSessionRequest && protocol != dataClientToServer && protocol != dataClientToServerLowEntropy && protocol != ackClientToServer && protocol != closeSessionRequest && protocol != closeSessionResponse {
-			return stderror.ErrInvalidArgument
+			return s.onUnexpectedProtocol(seg)
 		}
 	}
 
@@ -1054,6 +1054,19 @@ func (s *Session) input(seg *segment) error {
 		return s.inputClose(seg)
 	}
 	return nil
+}
+
+// onUnexpectedProtocol handles a segment whose protocol is never sent
+// to this end of the session.
+func (s *Session) onUnexpectedProtocol(seg *segment) error {
+	if s.transportProtocol == common.PacketTransport {
+		// Anyone on the network path can insert a datagram, for example
+		// send a datagram back to its sender. Drop it as if it was lost
+		// instead of closing the session.
+		log.Debugf("%v dropped %v with unexpected protocol", s, seg)
+		return nil
+	}
+	return stderror.ErrInvalidArgument
 }
 
 func (s *Session) inputData(seg *segment) error {
